@@ -2,7 +2,7 @@
    Rto.next_rto is the RtoManager::next_rto of timeout.rs as used by the client model (Agent/Model.v: new_mgr, tmo_one). *)
 From Coq Require Import List NArith Bool.
 Import ListNotations.
-From Rustun Require Import Agent.Rto.
+From Rustun Require Import Agent.Rto Agent.Model Proofs.AgentInv Proofs.AgentTrace Proofs.AgentSched.
 Open Scope N_scope.
 
 (* the first interval of a fresh manager started at t0 is RTO (slot 1), and the schedule invariant holds:
@@ -23,6 +23,27 @@ Theorem C06_next_rto_expired : forall r rm rc, 1 <= rc -> forall t0 k m now,
   \/ (exists m', next_rto m now = (None, m') /\ t0 + slot r rm rc rc <= now).
 Proof. exact Rto.next_rto_expired. Qed.
 Print Assumptions C06_next_rto_expired.
+
+(* lifted to the client: in every reachable state every pending timer entry is the pending slot t0 + slot k of its
+   transaction's manager (SInv, preserved by every operation: sinv_step); a timer call at `now` retransmits only requests
+   whose deadline lies ahead, fails exactly those whose deadline t0 + RTO*(2^(Rc-1)-1+Rm) has passed (never earlier), with
+   reason protection-violated iff marked, and leaves only entries expiring after now. (rm, rc) = (1, 1) on reliable
+   transport: one transmission, failure when the timeout has elapsed. *)
+Theorem C06_sinv_step : forall t0of rof c o,
+  Inv c -> SInv t0of rof c -> fresh_for c o -> ghost_op t0of rof o -> SInv t0of rof (fst (fst (step c o))).
+Proof. exact AgentSched.sinv_step. Qed.
+Theorem C06_tmo_deadline : forall t0of rof c now,
+  Inv c -> SInv t0of rof c ->
+  let '(c', _, ev) := step c (Tmo now) in
+  SInv t0of rof c' /\
+  (forall e, In e (H c') -> now < h_exp e) /\
+  (forall id, In id (ids_t (T c)) -> deadline t0of rof c id <= now ->
+     In (Failed id (rsn id (markers c))) ev /\ ~ In id (ids_t (T c')) /\ mem id (markers c') = false) /\
+  (forall id rs, In (Failed id rs) ev -> deadline t0of rof c id <= now /\ rs = rsn id (markers c) /\ In id (ids_t (T c))) /\
+  (forall id p0, In (Out id false p0) ev -> now < deadline t0of rof c id /\ In id (ids_t (T c'))).
+Proof. exact AgentSched.tmo_deadline. Qed.
+Print Assumptions C06_sinv_step.
+Print Assumptions C06_tmo_deadline.
 
 (* the defaults (RTO 500 ms, Rm 16, Rc 7): transmissions at 0, 500, 1500, 3500, 7500, 15500, 31500 ms, failure at 39500 ms;
    reliable transport is (timeout, 1, 1): one transmission, failure when the timeout has elapsed *)
